@@ -743,3 +743,32 @@ Proof.
   intros * Ha Hn. apply shrink_loop_false_frame. intros fs Hf. unfold moved_in in Hn.
   destruct (Z.eqb_spec a 0); [lia|]. rewrite Hf in Hn. destruct (Z.ltb_spec 0 a); [lia|exact Hn].
 Qed.
+
+(* ---------------------------------------------------------------------------------------- *)
+(* the space check of a growth reads the positions and sizes of the layout only              *)
+(* ---------------------------------------------------------------------------------------- *)
+
+Lemma avail_loop_ext : forall len len' pos pos' l x found avail prev,
+  (forall t, In t l -> pos' t = pos t /\ len' t = len t) ->
+  avail_loop len' pos' l x found avail prev = avail_loop len pos l x found avail prev.
+Proof.
+  induction l as [|t r IH]; intros x found avail prev H; cbn [avail_loop]; [reflexivity|].
+  destruct (H t (or_introl eq_refl)) as [-> ->].
+  destruct found; apply IH; intros t' Ht'; apply H; right; exact Ht'.
+Qed.
+
+Lemma verify_grow_ext : forall len len' pos pos' size l x a,
+  (forall t, In t l -> pos' t = pos t /\ len' t = len t) ->
+  verify_grow len' pos' size l x a = verify_grow len pos size l x a.
+Proof.
+  intros * H. unfold verify_grow, available. rewrite (avail_loop_ext len len' pos pos' l x false 0 0 H). reflexivity.
+Qed.
+
+(* a growth by a > 0 passes the check exactly when a <= the gaps behind x plus the trailing space *)
+Lemma verify_grow_fits : forall len pos size l x a fs, 0 <= a -> followers l x = Some fs ->
+  (verify_grow len pos size l x a = None <-> a <= free_from pos len (pos x + len x) size fs).
+Proof.
+  intros * Ha Hf. unfold verify_grow. destruct (Z.ltb_spec a 0); [lia|].
+  rewrite (available_spec _ _ _ _ _ _ Hf).
+  destruct (Z.ltb_spec (free_from pos len (pos x + len x) size fs) a); split; try discriminate; try reflexivity; intros; lia.
+Qed.
